@@ -3,8 +3,11 @@
 * every `pub const <NAME>: &str = "<kw>";` of the parser module becomes `def <NAME> : List Char := [..]`
   (character lists, so that kernel evaluation in proofs never has to unfold string literals);
 * the order of `command(<NAME>, ...)` inside the final `choice((...))` of `Command::parser` becomes `dispatchOrder`;
-* the call sites of `.unwrapped()` / `.unwrap()` on numeric conversions are counted (`numericSites`), so that a new
-  numeric token in the grammar breaks the tie with the model (lean/BsVerif/Model/CmdNum.lean checks the counts).
+* the call sites of the checked numeric conversions are counted (`numericSites`: `number()` in mod.rs,
+  `from_str_radix(..)` inside `try_map` in mod.rs, `number::<u64>()` and `number::<usize>()` in expression.rs), and so are
+  the conversions that can panic (`uncheckedSites`: `.unwrapped()`, `from_str_radix(..).unwrap()`, `.parse::<..>().unwrap()`;
+  none since the repair), so that a new numeric token in the grammar or a conversion that panics breaks the tie with the
+  model (lean/BsVerif/Props/C08.lean checks the counts).
 A renamed / removed keyword makes the Lean model fail to build; a new or re-ordered command makes
 `dispatchOrder` differ from the order the model transcribes (checked by a `#guard`/theorem there)."""
 import re
@@ -26,10 +29,15 @@ def extract(read):
         if n not in names: raise Exception(f"cmds: dispatch uses unknown constant {n}")
     code = src.split("#[test]")[0]
     expr = read(EXPR).split("#[cfg(test)]")[0]
-    n_unwrapped = len(re.findall(r"\.unwrapped\(\)", code))
-    n_hex_unwrap = len(re.findall(r"from_str_radix\([^)]*\)\s*\.unwrap\(\)", code))
-    e_unwrapped = len(re.findall(r"\.unwrapped\(\)", expr))
-    e_unwrap = len(re.findall(r"\.parse::<usize>\(\)\.unwrap\(\)", expr))
+    # `number()` = `text::int(10).from_str::<T>().try_map(..)`: its definition must be the checked one
+    if not re.search(r"pub fn number<'a, T>\(\)[^{]*\{\s*text::int\(10\)\s*\.from_str::<T>\(\)\s*\.try_map\(", code):
+        raise Exception("cmds: the checked decimal conversion `number()` not found in " + SRC)
+    n_number = len(re.findall(r"(?<![A-Za-z0-9_])number\(\)", code))
+    n_hex = len(re.findall(r"\.try_map\(\|s: &str, span\| \{\s*usize::from_str_radix\(s, 16\)\.map_err\(", code))
+    e_u64 = len(re.findall(r"(?<![A-Za-z0-9_])number::<u64>\(\)", expr))
+    e_usize = len(re.findall(r"(?<![A-Za-z0-9_])number::<usize>\(\)", expr))
+    n_unchecked = sum(len(re.findall(rx, code + expr)) for rx in (
+        r"\.unwrapped\(\)", r"from_str_radix\([^)]*\)\s*\.unwrap\(\)", r"\.parse::<[a-z0-9]+>\(\)\s*\.unwrap\(\)"))
     L = []
     for n, v in consts:
         L.append(f"def {n} : List Char := [" + ", ".join("'" + c + "'" for c in v) + "]")
@@ -38,7 +46,9 @@ def extract(read):
     L.append("def dispatchOrder : List (List Char) := [" + ", ".join(n for n, _ in order) + "]")
     L.append("def dispatchVars : List String := [" + ", ".join('"' + v.replace("r#", "") + '"' for _, v in order) + "]")
     L.append("")
-    L.append("/-- numbers of numeric conversion call sites: (`.unwrapped()` in mod.rs, `from_str_radix(..).unwrap()` in mod.rs,")
-    L.append("    `.unwrapped()` in expression.rs, `.parse::<usize>().unwrap()` in expression.rs) -/")
-    L.append(f"def numericSites : Nat × Nat × Nat × Nat := ({n_unwrapped}, {n_hex_unwrap}, {e_unwrapped}, {e_unwrap})")
+    L.append("/-- numbers of checked numeric conversion call sites: (`number()` in mod.rs, `from_str_radix(..)` in `try_map` in mod.rs,")
+    L.append("    `number::<u64>()` in expression.rs, `number::<usize>()` in expression.rs) -/")
+    L.append(f"def numericSites : Nat × Nat × Nat × Nat := ({n_number}, {n_hex}, {e_u64}, {e_usize})")
+    L.append("/-- number of numeric conversions that can panic (`unwrapped()` / `unwrap()`) in the two parser files -/")
+    L.append(f"def uncheckedSites : Nat := {n_unchecked}")
     return "\n".join(L)
